@@ -58,6 +58,7 @@ M0(r) ==
       txs    |-> [a \in Apps |-> <<>>],         \* frames transmitted for the current request
       view   |-> [a \in Apps |-> [active |-> FALSE, bytes |-> <<>>, slot |-> 0]],
       done   |-> [a \in Apps |-> FALSE],       \* the current request completed with a response
+      mustWin |-> [a \in Apps |-> FALSE],     \* the response was already received when the deadline was examined
       resp   |-> {},                            \* <<a, k, j, data, wkc>> the network produced
       hand   |-> <<NoApp, 0>>,                  \* request whose response the receive side holds
       handGenuine |-> FALSE,
@@ -132,8 +133,10 @@ ApplyX(mm, x, pos, e) ==
                 m1 == IF x.res = "timeout" /\ e.tx_prompt /\ Len(mm.txs[a]) # 1 + mm.rt[a]
                       THEN V(mm, "TransmissionCount", pos, <<a, x.k, Len(mm.txs[a]), mm.rt[a]>>)
                       ELSE mm
-                m2 == IF x.res = "ok" /\ ~mm.done[a]
-                      THEN V(m1, "OkWithoutResponse", pos, <<a, x.k>>) ELSE m1
+                m2a == IF x.res = "ok" /\ ~mm.done[a]
+                       THEN V(m1, "OkWithoutResponse", pos, <<a, x.k>>) ELSE m1
+                m2 == IF x.res = "timeout" /\ mm.mustWin[a]
+                      THEN V(m2a, "ResponseLostToDeadline", pos, <<a, x.k>>) ELSE m2a
             IN [m2 EXCEPT !.view[a].active = FALSE, !.done[a] = FALSE,
                           !.owner = [s \in Slots |-> IF @[s] = a THEN NoApp ELSE @[s]]]
       [] OTHER -> mm
@@ -176,11 +179,16 @@ Windows(mm, e, pos) ==
 
 StartOfReq(mm, e) ==
     IF e.at = "idle" /\ e.p \in Apps /\ e.c > 0
-    THEN [mm EXCEPT !.k[e.p] = @ + 1, !.rt[e.p] = (e.c - 1) \div 8, !.txs[e.p] = <<>>]
+    THEN [mm EXCEPT !.k[e.p] = @ + 1, !.rt[e.p] = (e.c - 1) \div 8, !.txs[e.p] = <<>>, !.mustWin[e.p] = FALSE]
     ELSE mm
 
+\* the deadline is examined (timer polled) while the response has already been received
+DeadlineExamined(mm, e) ==
+    IF e.at = "TimerPoll" /\ e.p \in Apps /\ e.slot \in Slots /\ e.st[e.slot + 1] = RxDone
+    THEN [mm EXCEPT !.mustWin[e.p] = TRUE] ELSE mm
+
 ApplyStep(mm, e, pos) ==
-    LET m1 == StartOfReq(mm, e)
+    LET m1 == DeadlineExamined(StartOfReq(mm, e), e)
         m2 == SlotChecks(m1, e, 0, pos)
         m3 == Windows(m2, e, pos)
         m4 == IF "x" \in DOMAIN e THEN FoldX(m3, e.x, 1, pos, e) ELSE m3
